@@ -103,7 +103,12 @@ func VP_C18_AnyCmd() {
 		case 2:
 			args = append(args, []string{"main", "dev", "trunk", "HEAD", "refs/heads/main"}[zzvp.Choose(5)])
 		case 3:
-			args = append(args, "HEAD@{"+zzvp.Str("p"+string(rune('0'+i)), 1, "0-9")+"}")
+			if zzvp.Choose(2) == 0 {
+				args = append(args, "HEAD@{"+zzvp.Str("p"+string(rune('0'+i)), 1, "0-9")+"}")
+			} else {
+				// numbers around the limits of the integer types
+				args = append(args, "HEAD@{"+[]string{"9223372036854775808", "18446744073709551615", "99999999999999999999999", "-1"}[zzvp.Choose(4)]+"}")
+			}
 		default:
 			args = append(args, zzvp.Str("hex"+string(rune('0'+i)), 39+zzvp.Choose(3), "0-9a-f"))
 		}
